@@ -345,12 +345,16 @@ class CallMixin:
         v = self.unopt(self.ev(node.args[0], st), node, st)
         if not isinstance(v, VStr):
             self.unsupported(node, "bytearray of %s" % v.ty)
-        return self.bytes_of(v)
+        r = self.bytes_of(v)
+        self.flush_pending(st)
+        return r
 
     def bytes_of(self, v):
         blen, barr, _ = self.codec_fns()
         self.trusted_axioms.add("str.encode/bytes.decode (UTF-8 codec): payload bytes uninterpreted; utf8len(s) >= len(s); "
                                 "decode(encode(s)) == s is assumed, byte counts are proved")
+        # a UTF-8 encoding is at least as long as the string has characters (and at most 4 bytes per character)
+        self.pending_assumes.append(z3.And(blen(v.t) >= z3.Length(v.t), blen(v.t) <= 4 * z3.Length(v.t)))
         return VList(INT, blen(v.t), barr(v.t))
 
     def codec_fns(self):
@@ -844,8 +848,15 @@ class CallMixin:
             return VBool(z3.PrefixOf(args[0].t, s.t))
         if attr == "endswith" and isinstance(args[0], VStr):
             return VBool(z3.SuffixOf(args[0].t, s.t))
-        if attr == "upper":
-            self.unsupported(node, "str.upper")
+        if attr == "upper" and not args:
+            # uninterpreted, with the two facts the code can rely on (same length, idempotent); what upper() does to the ACGT alphabet is
+            # settled by the finite-domain table checks that call the real functions
+            if not hasattr(self, "_py_upper"):
+                self._py_upper = z3.Function("py_str_upper", z3.StringSort(), z3.StringSort())
+            u = self._py_upper(s.t)
+            st.assume(z3.And(z3.Length(u) == z3.Length(s.t), self._py_upper(u) == u))
+            self.trusted_axioms.add("str.upper(): uninterpreted; length-preserving and idempotent (case folding itself is checked by enumeration)")
+            return VStr(u)
         if attr == "decode":
             return self.bytes_decode(s, node, st)
         if attr == "split" and len(args) == 1 and isinstance(args[0], VStr):
